@@ -43,6 +43,14 @@ CHECKS['C11'] = dict(
          "by R11.3). Does not decide memory-model questions beyond 'only atomics are shared'.",
     tech="static analysis: type-driven root completeness, structural recognition of the conservative-root design, thread effect-set (who-touches) analysis, CFG ordering")
 
+CHECKS['C10'] = dict(
+    text="Order-independence decided structurally: analyser phase discipline (every program-wide table a visit reads is filled for all "
+         "declarations before the first accept), runtime class layout order (base-first by post-order walk or recursive populate, never "
+         "the declaration list), and no user-code-running loop over a hash container / the declaration list / an unsorted snapshot "
+         "(phase-flag-guarded call edges are pruned). These are the only places a permutation of top-level declarations can influence.",
+    note=TB + "Decides necessary conditions over all permutations at once; the module loader's merge order is covered under C19.",
+    tech="static analysis: phase-discipline dominance in analyse(), structural recognition of the base-first ordering idiom, call-graph reachability from loop bodies with guard pruning")
+
 NOT_YET = "check not yet built in this round (framework under construction; see DESIGN.md §4 for the planned static rules)"
 
 
